@@ -187,6 +187,14 @@ func verifLemmaProgress(g *Graph, t *Task) {}
 //@     ite(e.Type == "unclaim" && decOK_UnclaimEvent(content(e.Data)) && dec_UnclaimEvent(content(e.Data)).ID == id, "",
 //@     ite(e.Type == "state" && decOK_StateEvent(content(e.Data)) && dec_StateEvent(content(e.Data)).ID == id
 //@           && parseOK(dec_StateEvent(content(e.Data)).TS) && clears(dec_StateEvent(content(e.Data)).NewState), "", c)))
+//@ spec evTitle(e Event, id string, cur string) string =
+//@     ite(e.Type == "title" && decOK_TitleUpdateEvent(content(e.Data)) && dec_TitleUpdateEvent(content(e.Data)).ID == id
+//@           && parseOK(dec_TitleUpdateEvent(content(e.Data)).TS), dec_TitleUpdateEvent(content(e.Data)).Title, cur)
+//@ spec evBody(e Event, id string, cur string) string =
+//@     ite(e.Type == "body" && decOK_BodyUpdateEvent(content(e.Data)) && dec_BodyUpdateEvent(content(e.Data)).ID == id
+//@           && parseOK(dec_BodyUpdateEvent(content(e.Data)).TS), dec_BodyUpdateEvent(content(e.Data)).Body, cur)
+//@ spec effTitle(evs []Event, id string, t string) string = foldl8(evTitle, evs, t, id)
+//@ spec effBody(evs []Event, id string, b string) string = foldl8(evBody, evs, b, id)
 //@ spec effState(evs []Event, id string, s string) string = foldl8(evState, evs, s, id)
 //@ spec effClaim(evs []Event, id string, c string) string = foldl8(evClaim, evs, c, id)
 
@@ -209,6 +217,8 @@ func verifLemmaProgress(g *Graph, t *Task) {}
 //@        effState(ret0, id, task.State) == task.State && effClaim(ret0, id, task.ClaimedBy) == task.ClaimedBy
 //@   ensures  [fresh] ret0 == nil || fresh(ret0)
 //@   ensures  [epic-no-epic] err == nil && task.IsEpic ==> !has(updates, "epic")
+//@   ensures  [title-trimmed] err == nil ==> effTitle(ret0, id, task.Title) == ite(has(updates, "title"), trimSpace(updates["title"]), task.Title)
+//@   ensures  [body-verbatim] err == nil ==> effBody(ret0, id, task.Body) == ite(has(updates, "body"), updates["body"], task.Body)
 //@   modifies nothing
 //@ loop 0 range updates
 //@   invariant [copy] forall k string :: has(remainingUpdates,k) <==> visited(k)
@@ -265,13 +275,20 @@ func verifLemmaProgress(g *Graph, t *Task) {}
 //@   invariant [members] forall x string :: contains(keys, x) <==> visited(x)
 //@   invariant [fresh] fresh(keys)
 
+//@ func deriveTitleAndBodyFromLegacy
+//@   trusted string algebra (Split/Join/TrimSpace/HasPrefix) of the legacy title derivation: returns some (title, body)
+//@   ensures [true] true
+//@   modifies nothing
 //@ func applyLegacyTitleMigration
-//@   trusted string algebra of the legacy-title derivation is outside the verified subset; the contract states only its frame and the no-op on titled items
-//@   requires [wf] graph != nil
+//@   requires [wf] graph != nil && (forall k string :: has(graph.Tasks, k) ==> graph.Tasks[k] != nil)
 //@   ensures [titled-untouched] forall t *Task :: trimSpace(old(t.Title)) != "" ==> t.Title == old(t.Title) && t.Body == old(t.Body)
 //@   ensures [only-graph-tasks] forall t *Task :: (forall k string :: has(graph.Tasks, k) ==> graph.Tasks[k] != t) ==>
 //@        t.Title == old(t.Title) && t.Body == old(t.Body)
 //@   modifies Task.Title, Task.Body
+//@ loop 0 range graph.Tasks
+//@   invariant [titled-untouched] forall t *Task :: trimSpace(old(t.Title)) != "" ==> t.Title == old(t.Title) && t.Body == old(t.Body)
+//@   invariant [only-graph-tasks] forall t *Task :: (forall k string :: has(graph.Tasks, k) ==> graph.Tasks[k] != t) ==>
+//@        t.Title == old(t.Title) && t.Body == old(t.Body)
 
 //@ spec wfTasks(g *Graph) bool =
 //@     forall k string :: has(g.Tasks, k) ==> g.Tasks[k] != nil && g.Tasks[k].ID == k
@@ -312,6 +329,17 @@ func verifLemmaProgress(g *Graph, t *Task) {}
 //@   invariant [results-allocated] forall k string :: has(graph.Tasks, k) ==> allocated(graph.Tasks[k].Results)
 //@   step [state-claim] forall k string :: old(has(graph.Tasks, k)) && has(graph.Tasks, k) ==>
 //@        graph.Tasks[k] == old(graph.Tasks[k]) && stepSC(graph, events[index-1], k)
+//@   step [text] forall k string :: old(has(graph.Tasks, k)) && has(graph.Tasks, k) ==>
+//@        graph.Tasks[k].Title == evTitle(events[index-1], k, old(graph.Tasks[k].Title)) &&
+//@        graph.Tasks[k].Body == evBody(events[index-1], k, old(graph.Tasks[k].Body))
+//@   step [created-from-event] forall k string :: !old(has(graph.Tasks, k)) && has(graph.Tasks, k) ==>
+//@        (events[index-1].Type == "new_task" || events[index-1].Type == "new_epic") && decOK_NewTaskEvent(content(events[index-1].Data)) &&
+//@        dec_NewTaskEvent(content(events[index-1].Data)).ID == k &&
+//@        graph.Tasks[k].Title == dec_NewTaskEvent(content(events[index-1].Data)).Title &&
+//@        graph.Tasks[k].Body == dec_NewTaskEvent(content(events[index-1].Data)).Body &&
+//@        graph.Tasks[k].State == dec_NewTaskEvent(content(events[index-1].Data)).State &&
+//@        graph.Tasks[k].EpicID == dec_NewTaskEvent(content(events[index-1].Data)).EpicID &&
+//@        graph.Tasks[k].ClaimedBy == "" && (graph.Tasks[k].IsEpic <==> events[index-1].Type == "new_epic")
 //@   step [results-prepend] forall k string :: old(has(graph.Tasks, k)) && has(graph.Tasks, k) && isResultFor(events[index-1], k) ==>
 //@        len(graph.Tasks[k].Results) == old(len(graph.Tasks[k].Results)) + 1 &&
 //@        resultIs(graph.Tasks[k].Results[0], events[index-1]) &&
@@ -449,6 +477,8 @@ func verifLemmaProgress(g *Graph, t *Task) {}
 //@   ensures [epic-exists] ret == nil && has(updates, "epic") && updates["epic"] != "" ==>
 //@        !task.IsEpic && has(graph.Tasks, updates["epic"]) && graph.Tasks[updates["epic"]].IsEpic
 //@   ensures [committed] ret == nil ==> commits == old(commits) + 1 && logv == old(logv) + 1
+//@   ensures [text] ret == nil ==> effTitle(appended, id, task.Title) == ite(has(updates, "title"), trimSpace(updates["title"]), task.Title) &&
+//@        effBody(appended, id, task.Body) == ite(has(updates, "body"), updates["body"], task.Body)
 //@   ensures [quiet] quiet ==> stdoutText == old(stdoutText)
 //@   modifies ghost logv, ghost commits, ghost appended, ghost readEpoch, ghost stdoutText
 //@ loop 0 range remainingUpdates
@@ -846,8 +876,11 @@ func verifLemmaProgress(g *Graph, t *Task) {}
 //@   ensures [nonnil] forall i int :: 0 <= i && i < len(ret) ==> ret[i] != nil
 //@   modifies nothing
 //@ func buildTaskShowOutput
-//@   trusted pure projection of a task to its JSON form (see C05/C17 for its content)
-//@   ensures [true] true
+//@   requires [task] task != nil
+//@   ensures [copy] ret.ID == task.ID && ret.UUID == task.UUID && ret.EpicID == task.EpicID && ret.State == task.State &&
+//@        ret.ClaimedBy == task.ClaimedBy && ret.Title == task.Title && ret.Body == task.Body &&
+//@        ret.CreatedAt == fmtTime(task.CreatedAt) && ret.UpdatedAt == fmtTime(task.UpdatedAt) &&
+//@        ret.Deps == task.Deps && ret.RDeps == task.RDeps
 //@   modifies nothing
 //@ func RunPrunePlan
 //@   requires [unlocked] lk == 0
@@ -1053,4 +1086,19 @@ func verifLemmaProgress(g *Graph, t *Task) {}
 //@   requires [nothing-held-up] forall u *Task :: inGraph(g, u) && !u.IsEpic ==> u.State == "todo" || finished(u.State)
 //@   requires [minimal] forall u *Task :: inGraph(g, u) && !u.IsEpic && !finished(u.State) ==> rankOf(t.ID) <= rankOf(u.ID)
 //@   ensures [ready] specReady(t, g)
+//@   modifies nothing
+
+// ---- text dataflow at the input layer (C17) ----
+//@ func (*TaskInput).GetTitle
+//@   requires [recv] t != nil
+//@   ensures [verbatim] ret == ite(t.Title != nil, deref(t.Title), "")
+//@   modifies nothing
+//@ func (*TaskInput).GetBody
+//@   requires [recv] t != nil
+//@   ensures [verbatim] ret == ite(t.Body != nil, deref(t.Body), "")
+//@   modifies nothing
+//@ func buildFlagUpdates
+//@   ensures [title-trimmed] has(ret, "title") ==> ret["title"] == trimSpace(opts.TitleFlag)
+//@   ensures [no-body] !has(ret, "body")
+//@   ensures [fresh] ret != nil && fresh(ret)
 //@   modifies nothing
